@@ -533,7 +533,12 @@ class Models:
             if isinstance(recv, VPyConst):
                 return self.pyconst_method(I, recv, name, args, kwargs)
             raise OutOfSubset('method %s.%s' % key)
-        return m(I, recv, *args, **kwargs)
+        try:
+            return m(I, recv, *args, **kwargs)
+        except TypeError as e:
+            if 'positional argument' in str(e) or 'unexpected keyword' in str(e) or 'required positional' in str(e):
+                raise OutOfSubset('method %s.%s called with arguments its model does not cover (%s)' % (key[0], key[1], e))
+            raise
 
     def pyconst_method(self, I, recv, name, args, kwargs):
         o = recv.obj
